@@ -104,6 +104,10 @@ Section FS.
      directory part is not a file *)
   Definition target_ok (fs : fsys) (p : path) : bool :=
     negb (is_nil p) && negb (is_dir fs p) && negb (existsb (is_file fs) (prefixes (dirname p))).
+  (* states that a real directory tree can be in: every ancestor of a directory or of a file is a directory *)
+  Definition fs_wf (fs : fsys) : bool :=
+    forallb (fun d => forallb (is_dir fs) (prefixes d)) (dirs fs)
+    && forallb (fun e => forallb (is_dir fs) (prefixes (dirname (fst e)))) (files fs).
 End FS.
 Arguments fsys C : clear implicits.
 
@@ -199,10 +203,27 @@ Section Obj.
 
   (* ---- abstract_mask.Mask.pixel_scale: the loop only logs a warning; returns pixel_scales[0] ---- *)
   Definition pixel_scale (pixel_scales : list V) : V := hd zero pixel_scales.
-  (* abstract_mask.Mask.pixel_scale_header: `try: return {"PIXSCALE": self.pixel_scale}`; the
-     `except exc.MaskException` branch (PIXSCALEY / PIXSCALEX) is unreachable because pixel_scale never raises *)
-  Definition pixel_scale_header (pixel_scales : list V) : header V := [(PIXSCALE, pixel_scale pixel_scales)].
+  (* abstract_mask.Mask.pixel_scale_header (as repaired by fixes/C16_anisotropic_pixel_scale_header.diff):
+     `if all(pixel_scale == self.pixel_scales[0] for pixel_scale in self.pixel_scales): return {"PIXSCALE": self.pixel_scales[0]}`
+     else `{"PIXSCALEY": self.pixel_scales[0], "PIXSCALEX": self.pixel_scales[1]}` *)
+  Definition pixel_scale_header (pixel_scales : list V) : header V :=
+    if forallb (fun s => eqb O s (nth 0 pixel_scales zero)) pixel_scales
+    then [(PIXSCALE, nth 0 pixel_scales zero)]
+    else [(PIXSCALEY, nth 0 pixel_scales zero); (PIXSCALEX, nth 1 pixel_scales zero)].
   Definition scales2 (s : V * V) : list V := [fst s; snd s].
+  (* abstract_ndarray.AbstractNDArray.pixel_scales_via_header_from followed by convert_pixel_scales_2d
+     (a float s becomes (s, s), a tuple is kept); header[key] raises KeyError when the card is absent *)
+  Definition pixel_scales_via_header_from (h : header V) : fres (V * V) :=
+    match hlookup PIXSCALE h with
+    | Some s => FOk (s, s)
+    | None => match hlookup PIXSCALEY h with
+              | None => FRaise KeyErr
+              | Some sy => match hlookup PIXSCALEX h with
+                           | None => FRaise KeyErr
+                           | Some sx => FOk (sy, sx)
+                           end
+              end
+    end.
 
   (* ---- Array2D / Kernel2D ---- *)
   Record array2d := mkarr2 { a_slim : list V; a_mask : list (list bool); a_scales : V * V }.
@@ -232,10 +253,8 @@ Section Obj.
   (* Array2D.from_primary_hdu ; Kernel2D.from_primary_hdu is the same text on cls = Kernel2D (normalize=False) *)
   Definition Array2D_from_primary_hdu (flip : bool) (h : hdu V (list V)) : fres array2d :=
     let values := flip_hdu_for_ds9 flip (hdata h) in
-    match hlookup PIXSCALE (hhdr h) with
-    | None => FRaise KeyErr
-    | Some s => Array2D_no_mask values (s, s)       (* convert_pixel_scales_2d(float) = (s, s) *)
-    end.
+    do sc <- pixel_scales_via_header_from (hhdr h);
+    Array2D_no_mask values sc.
   (* Kernel2D.__init__(normalize): self._array[:] = self._array / np.sum(self._array) *)
   Definition Kernel2D_new (a : array2d) (normalize : bool) : array2d :=
     if normalize then mkarr2 (map (fun v => div O v (sumT (a_slim a))) (a_slim a)) (a_mask a) (a_scales a) else a.
@@ -295,10 +314,8 @@ Section Obj.
   (* Mask2D.from_primary_hdu *)
   Definition Mask2D_from_primary_hdu (flip : bool) (h : hdu V (list V)) : fres mask2d :=
     let mask := flip_hdu_for_ds9 flip (hdata h) in
-    match hlookup PIXSCALE (hhdr h) with
-    | None => FRaise KeyErr
-    | Some s => FOk (mkmask2 (map (map tobool) mask) (s, s))
-    end.
+    do sc <- pixel_scales_via_header_from (hhdr h);
+    FOk (mkmask2 (map (map tobool) mask) sc).
 
   (* ---- Array1D ---- *)
   Record array1d := mkarr1 { b_vals : list V; b_mask : list bool; b_scale : V }.   (* b_vals: stored (slim) values *)
@@ -315,9 +332,10 @@ Section Obj.
     Array1D_new values (map (fun _ => false) values) scale.
   (* Array1D.native = Array1D(values=self, mask=self.mask, store_native=True) *)
   Definition Array1D_native (a : array1d) : list V := convert_array_1d (b_vals a) (b_mask a) true.
-  (* Array1D.hdu_for_output: calls array_2d_util.hdu_for_output_from (the 2D routine, which applies flipud) *)
+  (* Array1D.hdu_for_output (as repaired by fixes/C16_array1d_hdu_flip.diff): array_1d_util.hdu_for_output_from, no flip;
+     the [flip] argument (the config flag in force) is kept to show that it has no influence *)
   Definition Array1D_hdu_for_output (flip : bool) (a : array1d) : hdu V V :=
-    hdu_for_output_from_2d flip (Array1D_native a) (pixel_scale_header [b_scale a]).
+    hdu_for_output_from_1d (Array1D_native a) (pixel_scale_header [b_scale a]).
   (* Array1D.output_to_fits: array_1d_util.numpy_array_1d_to_fits (no flip) *)
   Definition Array1D_output_to_fits (fs : fitsfs V V) (a : array1d) (p : path) (overwrite : bool) :=
     numpy_array_1d_to_fits fs (Array1D_native a) p overwrite (pixel_scale_header [b_scale a]).
